@@ -152,6 +152,15 @@ func genC12(seed uint64, idx int, tier string) *Scenario {
 				id++
 				gated()
 			}
+			if r.Chance(0.25) {
+				// StartTLS (extended request 1.3.6.1.4.1.1466.20037) at a seeded position of the dialogue: what was
+				// (not) achieved before the upgrade is what holds after it
+				pos := r.Intn(len(a.Ops) + 1)
+				req := bSeq(0x30, bInt(0x02, int64(9000+c)), bSeq(0x77, bStr(0x80, "1.3.6.1.4.1.1466.20037"))).enc(false)
+				up := []Op{SendOp(req, nil, "StartTLS"), {K: "starttls"}}
+				a.Ops = append(a.Ops[:pos:pos], append(up, a.Ops[pos:]...)...)
+				sc.Params["ldap_tls"] = true
+			}
 			a.Ops = append(a.Ops, Op{K: "close"})
 			sc.Actors = append(sc.Actors, a)
 		}
@@ -379,6 +388,48 @@ func runC12(t *testing.T, sc *Scenario) Result {
 	if obs.BootErr != "" {
 		res.Violate("infra", "boot", obs.BootErr)
 		return res
+	}
+	if e := obs.Extra["tls-handshake-error"]; e != nil {
+		// (only when every upgrade was asked for: a minimised script may have lost the command in front of it)
+		// ... and granted: a session the service has ended before (a transfer command without data connection ends
+		// it) answers nothing
+		asked := true
+		for ai, a := range sc.Actors {
+			for i, o := range a.Ops {
+				if o.K != "starttls" {
+					continue
+				}
+				if i == 0 || a.Ops[i-1].K != "send" || !(a.Ops[i-1].Note == "AUTH TLS" || a.Ops[i-1].Note == "StartTLS") {
+					asked = false
+					continue
+				}
+				granted := false
+				for _, c := range obs.Conns[ai].Chunks {
+					if c.Step >= obs.Conns[ai].OpStep[i-1] && c.Step < obs.Conns[ai].OpStep[i] {
+						if a.Ops[i-1].Note == "AUTH TLS" && bytes.Contains(c.Data, []byte("234 ")) {
+							granted = true
+						}
+						if a.Ops[i-1].Note == "StartTLS" {
+							for _, code := range ldapResults(c.Data) {
+								if code == 0 {
+									granted = true
+								}
+							}
+						}
+					}
+				}
+				if !granted {
+					asked = false
+				}
+			}
+		}
+		if asked {
+			res.Violate("tls-upgrade-failed", svc, fmt.Sprintf("the service accepted the in-band upgrade but the TLS handshake failed: %v", e))
+			return res
+		}
+	}
+	if sc.ParamBool("ldap_tls") || sc.ParamBool("ftp_tls") {
+		res.probe("dialogues-with-tls-upgrade", 1)
 	}
 	switch svc {
 	case "ssh":
